@@ -66,7 +66,18 @@ for i in range(1, 21):
         pid, len(ev.get("theorems", []) or []) or ev.get("discharged", "?"),
         ", ".join("`%s`" % n.split(".", 1)[-1] for n in names[:40]) + (" … (+%d)" % (len(names) - 40) if len(names) > 40 else ""),
         ev.get("evaluations", "?"), ev.get("distinct_nontrivial", "?"), ev.get("traces_validated_against_impl", "?")))
-sec = (V / "tools" / "section12.md").read_text().replace("THEOREM_TABLE", "\n".join(thm_rows)).replace("SEEDED_TABLE", "\n".join(rows)).replace("FIX_TABLE", "\n".join(fix_rows)).replace("OPEN_TABLE", "\n".join(open_rows))
+cov = []
+for i in range(1, 21):
+    pid = "C%02d" % i
+    f = V / "notes" / (pid + ".md")
+    if not f.exists():
+        continue
+    txt = f.read_text()
+    m = re.search(r"^## Coverage table \(round 3\)\s*\n(.*?)(?=^## |\Z)", txt, re.S | re.M)
+    if m:
+        body = m.group(1).strip()
+        cov.append("#### %s\n\n%s\n" % (pid, body))
+sec = (V / "tools" / "section12.md").read_text().replace("THEOREM_TABLE", "\n".join(thm_rows)).replace("COVERAGE_TABLES", "\n".join(cov)).replace("SEEDED_TABLE", "\n".join(rows)).replace("FIX_TABLE", "\n".join(fix_rows)).replace("OPEN_TABLE", "\n".join(open_rows))
 design = (V / "DESIGN.md").read_text()
 i = design.find("\n## 12. As built")
 if i >= 0:
